@@ -364,6 +364,8 @@ func ReadFile(name string) ([]byte, error) {
 type Handle struct {
 	Name   string
 	write  bool
+	app    bool // O_APPEND
+	wpos   int
 	rpos   int
 	closed bool
 	std    int // 0 stdin, 1 stdout, 2 stderr, -1 regular
@@ -452,7 +454,7 @@ func OpenFile(name string, flag int) (*Handle, error) {
 		p.FS.Files[name] = []byte{}
 	}
 	rec.Result = "ok"
-	return &Handle{Name: name, write: true, std: -1}, nil
+	return &Handle{Name: name, write: true, app: flag&oAPPEND != 0, std: -1}, nil
 }
 
 // Write implements (*os.File).Write. A regular file is written sector by
@@ -497,7 +499,16 @@ func (h *Handle) Write(b []byte) (int, error) {
 			rec.Result = fmt.Sprintf("%s after %d", e.Error(), written)
 			return written, pathErr("write", h.Name, e)
 		}
-		p.FS.Files[h.Name] = append(p.FS.Files[h.Name], b[written:written+n]...)
+		cur := p.FS.Files[h.Name]
+		if h.app || h.wpos > len(cur) {
+			h.wpos = len(cur)
+		}
+		if end := h.wpos + n; end > len(cur) {
+			cur = append(cur, make([]byte, end-len(cur))...)
+		}
+		copy(cur[h.wpos:], b[written:written+n])
+		h.wpos += n
+		p.FS.Files[h.Name] = cur
 		rec.Result = fmt.Sprintf("ok %d", n)
 		written += n
 	}
